@@ -42,6 +42,10 @@ CHECKS = {
                 technique="explicit-state BFS over the joint client/manager subscription state driven through the real Client API against the real MessageManager, probe publish after every transition",
                 text="All 28 joint subscription states are reached and from each every public subscription operation with every argument shape (lists up to length 3 with duplicates and ALL in every position, the *_all helpers, both context managers with every list) is executed by the real Client; after each a raw publisher sends every type and the arrivals on the wire are compared with the client's reported sets, read_message output, refusal behaviour while subscribed to all, and context restoration.",
                 note="Trusted: virtual TCP model; one client, 3 types + ALL + a never-subscribed type."),
+    "C08": dict(engine="CLX", level="exploration", ref="DESIGN.md 4/C08",
+                technique="bounded-exhaustive enumeration of incoming frame sequences, read parameters, subscription changes and close offsets against the real Client on a scripted virtual connection, compared call by call with a reference reader",
+                text="Every sequence of up to 3-4 frames over a 13-kind alphabet (good, unsubscribed, paused, ACK, signal, unknown type, wrong sizes, wrong/zero version) x all read_message parameter combinations, one subscription change at every position, and FIN/RST at every byte offset of the stream, both header layouts; each read_message call is compared with the reference reader (returned bytes, exception class, resynchronisation, filtering, connected flag).",
+                note="Trusted: virtual TCP model, reference reader (DESIGN appendix B). timeout==0 may return None after discarding (both accepted)."),
 }
 
 ALL = [f"C{i:02d}" for i in range(1, 20)]
